@@ -2,7 +2,7 @@
    This file holds statements only; every proof is `exact <lemma>` into Proofs/. *)
 From Coq Require Import ZArith List Bool.
 Import ListNotations.
-Require Import PV.Lib.Bytes PV.Model.Wire PV.Spec.Rfc4880_wire PV.Proofs.Wire_lemmas PV.Proofs.Wire_lemmas2 PV.Proofs.Wire_lemmas3.
+Require Import PV.Lib.Bytes PV.Model.Wire PV.Spec.Rfc4880_wire PV.Proofs.Wire_lemmas PV.Proofs.Wire_lemmas2 PV.Proofs.Wire_lemmas3 PV.Proofs.Wire_lemmas5.
 Open Scope Z_scope.
 
 (* every representable new-format length round-trips, leaving following data untouched *)
@@ -55,6 +55,38 @@ Theorem C09_old_header_never_narrow : forall t n st body,
 Proof. exact old_header_never_narrow. Qed.
 Print Assumptions C09_old_header_never_narrow.
 
+(* old-format header, decode direction: for EVERY first octet with bit 6 clear and every following octet string, tag, width of
+   the length field and value are the ones RFC 4880 4.2 / 4.2.1 assigns (written there with / and mod, Spec rfc_old_len);
+   the only inputs the RFC assigns nothing to are those shorter than the width *)
+Theorem C09_old_header_dec_eq_rfc : forall o rest, 0 <= o < 256 -> rfc_is_old o = true -> rfc_old_lentype o < 3 ->
+  match rfc_old_len (rfc_old_lentype o) rest with
+  | Some (v, r) =>
+      header_parse (o :: rest) =
+      Some ({| h_lenfmt := 0; h_tag := rfc_old_tag o; h_llen := rfc_old_width (rfc_old_lentype o); h_len := v |}, r)
+  | None => (Z.of_nat (length rest) < rfc_old_width (rfc_old_lentype o))
+  end.
+Proof. exact old_header_dec_eq_rfc. Qed.
+Print Assumptions C09_old_header_dec_eq_rfc.
+Theorem C09_old_header_indeterminate_dec : forall o rest, 0 <= o < 256 -> rfc_is_old o = true -> rfc_old_lentype o = 3 ->
+  header_parse (o :: rest) =
+  Some ({| h_lenfmt := 0; h_tag := rfc_old_tag o; h_llen := 1; h_len := Z.of_nat (length rest) |}, rest).
+Proof. exact old_header_indeterminate_dec. Qed.
+Print Assumptions C09_old_header_indeterminate_dec.
+Example C09_old_header_dec_premises :
+  header_parse [154; 0; 1; 0; 0; 9] = Some ({| h_lenfmt := 0; h_tag := 6; h_llen := 4; h_len := 65536 |}, [9]) /\
+  rfc_old_len (rfc_old_lentype 154) [0; 1; 0; 0; 9] = Some (65536, [9]) /\ rfc_is_old 154 = true /\
+  header_parse [175; 1; 2] = Some ({| h_lenfmt := 0; h_tag := 11; h_llen := 1; h_len := 2 |}, [1; 2]).
+Proof. exact old_header_dec_examples. Qed.
+(* a new-format first octet carries its tag in the low six bits; the length is C09_new_len_dec_eq_rfc's *)
+Theorem C09_new_header_dec_tag : forall o rest, 0 <= o < 256 -> rfc_is_old o = false ->
+  header_parse (o :: rest) =
+  match new_len rest with
+  | None => None
+  | Some (l, r) => Some ({| h_lenfmt := 1; h_tag := o mod 64; h_llen := 1; h_len := l |}, r)
+  end.
+Proof. exact new_header_dec_tag. Qed.
+Print Assumptions C09_new_header_dec_tag.
+
 (* the pre-repair emitter is refuted: one-octet field for 300 *)
 Theorem C09_old_header_prefix_refuted :
   exists h bs h' r, header_emit_prefix h = Some bs /\ header_parse (bs ++ [1; 2; 3]) = Some (h', r) /\ h_len h' <> h_len h.
@@ -88,6 +120,12 @@ Print Assumptions C09_mpi_dec_eq_rfc.
 Theorem C09_time4_roundtrip : forall t r, 0 <= t < 4294967296 -> length (time4 t) = 4%nat /\ untime4 (time4 t ++ r) = t.
 Proof. exact time4_roundtrip. Qed.
 Print Assumptions C09_time4_roundtrip.
+
+Theorem C09_untime4_eq_rfc : forall a b c d r, wf_bytes [a; b; c; d] ->
+  untime4 (a :: b :: c :: d :: r) = a * 16777216 + b * 65536 + c * 256 + d /\
+  0 <= untime4 (a :: b :: c :: d :: r) < 4294967296.
+Proof. exact untime4_eq_rfc. Qed.
+Print Assumptions C09_untime4_eq_rfc.
 
 (* S2K coded count, all 256 codes *)
 Theorem C09_count_eq_rfc : forall c, 0 <= c < 256 -> s2k_count c = rfc_count c.
